@@ -46,7 +46,10 @@ def run_keep(case) -> None:
     n = len(case["bells"])
     variant = case["variant"]
     expect = case["expect"]
-    hw = NVHardwareConfig(5) if case["hardware"] == "nv" else GenericHardwareConfig(5)
+    from netqasm.sdk.build_types import HardwareConfig
+
+    hw = {"nv": lambda: NVHardwareConfig(5), "generic": lambda: GenericHardwareConfig(5), "generic1": lambda: GenericHardwareConfig(1),
+          "custom1": lambda: HardwareConfig(1, 4)}[case["hardware"]]()
     sock = EPRSocket("bob")
     ctrl, conn = sim.fresh(sim.StateVectorExecutor, network_stack_cls=net.ScriptedNetworkStack, epr_sockets=[sock], hardware_config=hw, max_qubits=5)
     ex = ctrl._executor
@@ -59,15 +62,29 @@ def run_keep(case) -> None:
         else:
             q.H()
         others.append(q)
+    prelude = case.get("prelude")
+    if prelude:
+        kind = prelude[0]
+        if kind in ("recv_rsp", "recv_keep", "create_keep"):
+            pq = getattr(sock, kind)(number=1)
+            stack.expect("create" if kind == "create_keep" else "recv", "K", 1, [{"bell_state": prelude[1]}])
+            pq[0].measure()
+        elif kind == "new_register":
+            conn.builder.new_register(3)
+        if len(prelude) > 2 and prelude[2]:
+            conn.flush()
+        n_prelude_pairs = len(stack.pair_log) + (1 if kind in ("recv_rsp", "recv_keep", "create_keep") and not (len(prelude) > 2 and prelude[2]) else 0)
+    else:
+        n_prelude_pairs = 0
     measured: Dict[int, float] = {}  # pair index -> fidelity with Phi+ when its local half was consumed
     delivered_order: List[int] = []
 
     def before_measure(phys):
         if phys in stack.partners:
             partner = stack.partners[phys]
-            idx = next(i for i, p in enumerate(stack.pair_log) if p["partner"] == partner)
+            idx = next(i for i, p in enumerate(stack.pair_log) if p["partner"] == partner) - n_prelude_pairs
             rho = ex.sv.reduced([phys, partner])
-            measured[idx] = (qm.fidelity_pure(rho, qm.BELL_VECS[0]), qm.fidelity_pure(rho, qm.BELL_VECS[stack.pair_log[idx]["bell"]]))
+            measured[idx] = (qm.fidelity_pure(rho, qm.BELL_VECS[0]), qm.fidelity_pure(rho, qm.BELL_VECS[stack.pair_log[idx + n_prelude_pairs]["bell"]]))
 
     ex.before_measure_hook = before_measure
     kw: Dict[str, Any] = {}
@@ -116,7 +133,7 @@ def run_keep(case) -> None:
             phys = um[q.qubit_id] if q.qubit_id < len(um) else None
             if phys is None:
                 raise Failure(f"qubit-missing:{variant}:{case['hardware']}", case, f"handle of pair {i} has virtual id {q.qubit_id}, which is not allocated on the controller")
-            partner = stack.pair_log[i]["partner"]
+            partner = stack.pair_log[i + n_prelude_pairs]["partner"]
             rho = sv.reduced([phys, partner])
             f = qm.fidelity_pure(rho, target_vec)
         if abs(f - 1) > 1e-7:
@@ -153,6 +170,16 @@ def joint_distribution(bell: int, rot_a, rot_b) -> np.ndarray:
     return (np.abs(psi) ** 2).reshape(2, 2)  # [creator outcome, receiver outcome]
 
 
+def _deser_measure(params, arr):
+    """internal helper of the SDK: pass the receiver role only if this tree's helper takes one"""
+    import inspect
+
+    from netqasm.qlink_compat import EPRRole
+    from netqasm.sdk.build_epr import deserialize_epr_measure_results as f
+
+    return f(params, arr, EPRRole.RECV) if len(inspect.signature(f).parameters) >= 3 else f(params, arr)
+
+
 def run_measure(case) -> None:
     """all raw outcome pairs in the support of the delivered state; post-processed pair must follow Phi+ statistics"""
     from netqasm.qlink_compat import EPRRole
@@ -179,7 +206,7 @@ def run_measure(case) -> None:
                                           expect_phi_plus=case["expect"], rotations_local=rot, rotations_remote=rot)
                 arr = conn.builder._alloc_ent_results_array(number=1, tp=__import__("netqasm.qlink_compat", fromlist=["EPRType"]).EPRType.M)
                 conn.builder._build_cmds_epr_recv_measure(arr, True, params)
-                results = deserialize_epr_measure_results(params, arr, EPRRole.RECV)
+                results = _deser_measure(params, arr)
             else:
                 results = sock.recv_measure(number=1, expect_phi_plus=case["expect"])
             stack.expect("recv", "M", 1, [{"bell_state": bell, "measurement_outcome": b}])
@@ -233,7 +260,7 @@ def run_measure_multi(case) -> None:
         params = EntRequestParams(remote_node_id=1, epr_socket_id=0, number=n, post_routine=None, sequential=False, expect_phi_plus=True, rotations_local=rot, rotations_remote=rot)
         arr = conn.builder._alloc_ent_results_array(number=n, tp=EPRType.M)
         conn.builder._build_cmds_epr_recv_measure(arr, True, params)
-        results = deserialize_epr_measure_results(params, arr, EPRRole.RECV)
+        results = _deser_measure(params, arr)
     else:
         results = sock.recv_measure(number=n)
     stack.expect("recv", "M", n, [{"bell_state": b, "measurement_outcome": r} for b, r in zip(bells, raws)])
@@ -245,7 +272,27 @@ def run_measure_multi(case) -> None:
             raise Failure(f"measure:multi-pair:{case['route']}", case, f"pair {i} of {n} (Bell state {bells[i]}, basis {case['basis']}, raw outcome {raws[i]}) is post-processed to {got}; Phi+ statistics require {want}")
 
 
+def run_measure_creator(case) -> None:
+    """the creating node never post-processes: its outcome handle reads the raw link-layer outcome (the receiver flips)"""
+    from netqasm.sdk.build_epr import EprMeasBasis
+    from netqasm.sdk.epr_socket import EPRSocket
+    from vlib import net, sim
+
+    sock = EPRSocket("bob")
+    ctrl, conn = sim.fresh(sim.TraceExecutor, network_stack_cls=net.ScriptedNetworkStack, epr_sockets=[sock], max_qubits=5)
+    b = EprMeasBasis[case["basis"]]
+    res = sock.create_measure(number=1, basis_local=b, basis_remote=b)
+    ctrl.network_stack.expect("create", "M", 1, [{"bell_state": case["bell"], "measurement_outcome": case["raw"]}])
+    conn.flush()
+    got = res[0].measurement_outcome
+    if got != case["raw"]:
+        raise Failure("measure:creator-post-processed", case, f"create_measure in basis {case['basis']} with delivered Bell state {case['bell']}: the creator's outcome {case['raw']} is reported as {got}; only the receiver compensates for the Bell state")
+
+
 def check(case) -> None:
+    if case["kind"] == "measure_creator":
+        run_measure_creator(case)
+        return
     if case["kind"] == "keep":
         run_keep(case)
     elif case["kind"] == "measure_multi":
@@ -270,6 +317,22 @@ def keep_cases(max_pairs: int, ctx_open) -> List[Dict[str, Any]]:
                             if variant in ("recv_keep", "recv_keep_seq") and others == 0:
                                 # the same scenario with the responses arriving as qlink-interface 1.0 objects
                                 cases.append({"kind": "keep", "bells": list(bells), "variant": variant, "hardware": hardware, "others": others, "expect": expect, "wire": "qlink10"})
+    # single-communication-qubit devices that are not NV (one pair)
+    for hardware in ("generic1", "custom1"):
+        for b in range(4):
+            for variant in ("recv_keep", "recv_keep_with_info", "create_keep"):
+                for expect in (True, False):
+                    if variant == "create_keep" and not expect:
+                        continue
+                    if hardware == "generic1" and variant == "create_keep":
+                        pass
+                    cases.append({"kind": "keep", "bells": [b], "variant": variant, "hardware": hardware, "others": 0, "expect": expect})
+    # an earlier, already consumed request (or a live register) on the same connection shifts the register allocation
+    for prelude in (["recv_rsp", 1, False], ["recv_rsp", 2, True], ["recv_keep", 3, False], ["create_keep", 1, True], ["new_register", 0, False]):
+        for bells in ([1], [2, 3], [3, 1], [1, 2, 3]):
+            for variant in ("recv_keep", "recv_keep_seq", "recv_rsp"):
+                cases.append({"kind": "keep", "bells": list(bells), "variant": variant, "hardware": "nv", "others": 0, "expect": True, "prelude": prelude})
+            cases.append({"kind": "keep", "bells": [bells[0]], "variant": "recv_keep", "hardware": "generic", "others": 0, "expect": True, "prelude": prelude})
     return cases
 
 
@@ -284,6 +347,10 @@ def measure_cases() -> List[Dict[str, Any]]:
                 out.append({"kind": "measure_multi", "route": route, "basis": basis, "bells": list(bells), "raws": [bells[0] % 2, (bells[1] // 2) % 2], "expect": True})
             for bells in ((1, 2, 3), (3, 0, 1), (2, 2, 0, 1)):
                 out.append({"kind": "measure_multi", "route": route, "basis": basis, "bells": list(bells), "raws": [0] * len(bells), "expect": True})
+    for basis in ("X", "Y", "Z", "MX", "MY", "MZ"):
+        for bell in range(4):
+            for raw in (0, 1):
+                out.append({"kind": "measure_creator", "basis": basis, "bell": bell, "raw": raw})
     return out
 
 
@@ -293,6 +360,8 @@ KF_NV_ASSERT = "nv-keep-with-other-live-qubits-asserts"
 
 def excluded(case, open_keys) -> str:
     """input-level predicates of the open known findings (never outputs or error texts)"""
+    if case["kind"] == "measure_creator":
+        return ""
     if case["kind"] in ("measure", "measure_multi"):
         if case["route"] == "recv_measure" and case["basis"] not in ("Z", "MZ") and case["expect"] and KF_BASIS in open_keys:
             return KF_BASIS
@@ -335,7 +404,7 @@ def shard(ctx: Ctx) -> None:
             ctx.fail(f)
         n_enum += 1
         nt = any(b != 0 for b in case["bells"]) if "bells" in case else case["bell"] != 0
-        labels = [case["kind"]] + ([case["variant"], case["hardware"], f"pairs:{len(case['bells'])}", f"others:{case['others']}", f"expect:{case['expect']}"] if case["kind"] == "keep" else [case["route"], case["basis"]])
+        labels = [case["kind"]] + ([case["variant"], case["hardware"], f"pairs:{len(case['bells'])}", f"others:{case['others']}", f"expect:{case['expect']}"] + (["prelude:" + case["prelude"][0]] if case.get("prelude") else []) if case["kind"] == "keep" else [case.get("route", "creator"), case["basis"]])
         stt.case(case, nt, labels, sample=case)
     stt.exhaustive_domains[f"keep scenarios up to {max_pairs} pairs x variants x hardware x others x expectation; measure-directly 4 Bell x 6 bases x 2 routes x expectation"] = n_enum
     if ctx.tier == "quick":
